@@ -14,7 +14,7 @@ package rrc
 
 //@ define BUDGET(p) (p.receivedBytes <= 6148914691236517205 ==> p.sentBytes <= 3*p.receivedBytes)
 //@ define KEY() retAs("pathKey", 0, addr.String())
-//@ define INV(m) forallKey(m.paths, func(k string) bool { return m.paths[k] != nil && BUDGET(m.paths[k]) })
+//@ define INV(m) forallKey(m.paths, func(k string) bool { return allocated(m.paths[k]) && BUDGET(m.paths[k]) })
 //@ define SAME() retBool("sameAddress", 0)
 
 //@ func Manager.Reserve
@@ -149,4 +149,13 @@ package rrc
 //@ ensures marked-after: marked
 //@ ensures counts-wire-bytes: !old(marked) ==> argInt("Manager.recordReceived", 3) == wireBytes
 //@ ensures counts-after-marker: !old(marked) ==> calledBefore("marker", "Manager.recordReceived")
+//@ end
+
+//@ func Manager.pathLocked
+//@ ensures dbg1: fresh(result) || old(allocated(result))
+//@ ensures dbg2: forallKey(m.paths, func(k string) bool { return KEPT(k) ==> old(allocated(m.paths[k])) })
+//@ ensures dbg3: forallKey(m.paths, func(k string) bool { return KEPT(k) && !fresh(result) ==> m.paths[k].sentBytes == old(m.paths[k].sentBytes) })
+//@ ensures dbg4: forallKey(m.paths, func(k string) bool { return KEPT(k) && fresh(result) ==> m.paths[k] != result })
+//@ ensures dbg5: forallKey(m.paths, func(k string) bool { return KEPT(k) && fresh(result) ==> m.paths[k].sentBytes == old(m.paths[k].sentBytes) })
+//@ ensures dbg6: fresh(result) ==> !old(allocated(result))
 //@ end
